@@ -96,10 +96,17 @@ def parseField : String → Option StoreField
   | "dropfail" => some .dropFail
   | _ => none
 
+/-- a cutoff `now − Duration`: must lie before 2023-11-14T22:13:20Z, i.e. before the wall clock of
+    any run of the harness (and before the model's clock), else the op line is rejected -/
+def toCutoff? (s : String) : Option Int :=
+  match toI64? s with
+  | some a => if a ≤ 1700000000000000000 then some a else none
+  | none => none
+
 def parseCutoffs (s : String) : Option (List (String × String × Int)) :=
   (splitComma s).mapM fun e =>
     match e.splitOn ":" with
-    | [db, rp, a] => (toI64? a).map fun a => (db, rp, a)
+    | [db, rp, a] => (toCutoff? a).map fun a => (db, rp, a)
     | _ => none
 
 def validName (s : String) : Bool :=
@@ -115,7 +122,7 @@ def parseOp : List String → Option Op
   | ["sgd", db, rp, d] => (toI64? d).map (.sgd db rp ·)
   | ["csg", db, rp, t] => (toI64? t).map (.csg db rp ·)
   | ["ms", db, rp, c, ts] => do
-    let c ← if c = "-" then some none else (toI64? c).map some
+    let c ← if c = "-" then some none else (toCutoff? c).map some
     let ts ← parseI64s ts
     some (.ms db rp c ts)
   | ["dump", db, rp] => some (.dump db rp)
